@@ -122,6 +122,49 @@ var families = map[string]script{
 		}
 		return b.String()
 	},
+	// agents with a past: a call on the instance panicked part-way (a value the formatter cannot print, a text
+	// the parser refuses, a self-containing value the collator gives up on) and the instance is used again
+	"format-after-panic": func(id int) string {
+		f := cdc.Formatter().Make()
+		n := cdc.Notation().Make()
+		l := col.List[any](lib.Notation()).MakeFromArray([]any{int64(id), "x", col.List[any](lib.Notation()).MakeFromArray([]any{1.5, nil, int64(id % 7)})})
+		var b strings.Builder
+		for i := 0; i < 5; i++ {
+			lib.Call(func() { f.FormatValue([]any{int64(1), struct{ X chan int }{}}) })
+			lib.Call(func() { n.FormatValue([]any{"a", struct{ X chan int }{}}) })
+			b.WriteString(f.FormatValue(l))
+			b.WriteString(n.FormatValue(l))
+		}
+		return b.String()
+	},
+	"parse-after-reject": func(id int) string {
+		parser := cdc.Parser().Make()
+		n := cdc.Notation().Make()
+		src := fmt.Sprintf("[\n    %d\n    \"s%d\"\n    [1.5, nil](Set)\n](List)\n", id, id)
+		var b strings.Builder
+		for i := 0; i < 4; i++ {
+			lib.Call(func() { parser.ParseSource("[1 2](Array)") })
+			lib.Call(func() { n.ParseSource("[1, 2, 3(List)") })
+			b.WriteString(fmt.Sprint(parser.ParseSource(src)))
+			b.WriteString(fmt.Sprint(n.ParseSource(src)))
+		}
+		return b.String()
+	},
+	"rank-after-cycle": func(id int) string {
+		c := age.Collator[any]().Make()
+		n := lib.Notation()
+		cyclic := col.List[any](n).Make()
+		cyclic.AppendValue(cyclic)
+		mk := func(k int) any { return col.List[any](n).MakeFromArray([]any{int64(k % 5), fmt.Sprint("s", k%3), nil}) }
+		var b strings.Builder
+		for i := 0; i < 6; i++ {
+			lib.Call(func() { c.RankValues(cyclic, cyclic) })
+			lib.Call(func() { c.CompareValues(cyclic, cyclic) })
+			x, y := mk(id+i), mk(id+(i*7)%5)
+			fmt.Fprint(&b, c.RankValues(x, y), c.CompareValues(x, y), " ")
+		}
+		return b.String()
+	},
 	"iterate": func(id int) string {
 		l := col.List[int](lib.Notation()).MakeFromArray(intsFor(id, 15))
 		it := l.GetIterator()
@@ -161,7 +204,7 @@ var familyNames = func() []string {
 
 // pairs of families that are candidates for hidden shared state
 var sharingCandidates = map[string]bool{"format-string": true, "format-notation": true, "sort-composite": true, "sort-int": true, "parse": true, "search-composite": true,
-	"set-algebra-composite": true, "compare-rank": true}
+	"set-algebra-composite": true, "compare-rank": true, "format-after-panic": true, "parse-after-reject": true, "rank-after-cycle": true}
 
 type indepCase struct {
 	Goroutines []string `json:"goroutines"` // family per goroutine
